@@ -66,6 +66,22 @@ class KeyPool:
                 seen[t] = k
         return tuple(self._get(nm, None) for nm in names)
 
+    def ec_tag_carry(self, alg=13, flags=257):
+        """An EC key whose RFC 4034 App. B accumulator needs the final carry to be DISCARDED:
+        (sum & 0xFFFF) + (sum >> 16) > 0xFFFF, so a checksum-style fold gives tag + 1. (about 1 key in 3000; cached)"""
+        name = f"ec-carry-{alg}-{flags}"
+        if name not in self.data:
+            curve = ec.SECP256R1() if alg == 13 else ec.SECP384R1()
+            while True:
+                k = ec.generate_private_key(curve)
+                rd = rdata(flags, 3, alg, rfc6605(k.public_key()))
+                acc = sum(b if i & 1 else b << 8 for i, b in enumerate(rd))
+                if (acc & 0xFFFF) + (acc >> 16) > 0xFFFF:
+                    self.data[name] = k.private_bytes(serialization.Encoding.PEM, serialization.PrivateFormat.PKCS8, serialization.NoEncryption()).decode()
+                    self.dirty = True
+                    break
+        return self._get(name, None)
+
     def save(self):
         if self.dirty:
             tmp = self.path.with_suffix(f".{os.getpid()}.tmp")
